@@ -211,6 +211,7 @@ fn spec_of(c: &Case) -> CraftSpec {
             actions,
             json_assertions: vec![("org.verif.note".into(), format!("{{\"node\":{u}}}"))],
             hard_binding: true,
+            real_binding: false,
             thumbnail: false,
             redactions,
             remove_after_sign: vec![],
@@ -256,23 +257,30 @@ fn run_case(c: &Case) -> Obs {
         true
     });
     let embed = c.embed;
-    let (a0, b0) = (ALLOCS.load(Ordering::Relaxed), ALLOC_BYTES.load(Ordering::Relaxed));
-    let cpu0 = cpu_ms();
-    // the read runs on a thread with a 2 MiB stack (what a non-main-thread caller gets by default)
+    // the read runs on a thread with a 2 MiB stack (what a non-main-thread caller gets by default);
+    // counters are sampled around the Reader construction only (not around the harness's report handling)
     let h = std::thread::Builder::new().stack_size(2 << 20).spawn(move || {
-        report::catch_sdk(|| {
+        let (a0, b0) = (ALLOCS.load(Ordering::Relaxed), ALLOC_BYTES.load(Ordering::Relaxed));
+        let cpu0 = cpu_ms();
+        let mut meas = (0u64, 0u64, 0u64);
+        let r = report::catch_sdk(|| {
             let r = if embed {
                 Reader::from_context(ctx).with_stream("image/jpeg", Cursor::new(crafted.asset.clone()))
             } else {
                 Reader::from_context(ctx).with_manifest_data_and_stream(&crafted.store, "image/jpeg", Cursor::new(crafted.asset.clone()))
             };
+            meas = (ALLOCS.load(Ordering::Relaxed) - a0, ALLOC_BYTES.load(Ordering::Relaxed) - b0, cpu_ms().saturating_sub(cpu0));
             report::outcome_of(r)
-        })
+        });
+        (r, meas)
     });
-    let res = h.expect("spawn").join();
-    o.cpu_ms = cpu_ms().saturating_sub(cpu0);
-    o.allocs = ALLOCS.load(Ordering::Relaxed) - a0;
-    o.alloc_bytes = ALLOC_BYTES.load(Ordering::Relaxed) - b0;
+    let (res, meas) = match h.expect("spawn").join() {
+        Ok((r, m)) => (Ok(r), m),
+        Err(e) => (Err(e), (0, 0, 0)),
+    };
+    o.allocs = meas.0;
+    o.alloc_bytes = meas.1;
+    o.cpu_ms = meas.2;
     o.callbacks = total.load(Ordering::Relaxed);
     o.ingredient_callbacks = ingr.load(Ordering::Relaxed);
     o.cancelled_by_budget = cancelled.load(Ordering::Relaxed) != 0;
